@@ -538,3 +538,60 @@ func ruleDefaultsSurviveAbsence(p *Program, r *Report) {
 }
 
 func init() { register("C13", Rule{"R13d", ruleDefaultsSurviveAbsence}) }
+
+// R13e: whitespace-significant payloads reach their parser unaltered.  In CSV and YAML surrounding whitespace is
+// content (a trailing space in the last cell, the final newline of a block scalar, the indentation of the first
+// line).  The decoders for those formats must hand the payload they were given to the codec library as it is; a
+// Trim/Replace/Fields/ToLower-style call on it in between changes what some encoder output decodes to.
+func ruleSignificantPayloadUnaltered(p *Program, r *Report) {
+	r.Begin("R13e", "significant whitespace survives: in the CSV and YAML decoder functions (syntax/std_encoding_csv.go, syntax/std_encoding_yaml.go) no bytes.* / strings.* call that removes or rewrites characters (Trim*, Replace*, Fields, Map, ToLower/ToUpper, Split-and-rejoin) is applied to the payload before it reaches the codec library", 0)
+	defer r.End()
+	n := 0
+	for _, fn := range p.RepoFns {
+		f := p.File(fn.Pos())
+		if !(strings.HasSuffix(f, "syntax/std_encoding_csv.go") || strings.HasSuffix(f, "syntax/std_encoding_yaml.go")) {
+			continue
+		}
+		if !strings.Contains(strings.ToLower(fn.Name()), "decode") && !(fn.Parent() != nil && strings.Contains(strings.ToLower(fn.Parent().Name()), "decode")) {
+			continue
+		}
+		ord := 0
+		ForEachInstr(fn, func(ins ssa.Instruction) {
+			c, ok := ins.(*ssa.Call)
+			if !ok {
+				return
+			}
+			g := c.Call.StaticCallee()
+			if g == nil || g.Pkg == nil {
+				return
+			}
+			pp := g.Pkg.Pkg.Path()
+			if pp != "bytes" && pp != "strings" {
+				return
+			}
+			nm := g.Name()
+			if !(strings.HasPrefix(nm, "Trim") || strings.HasPrefix(nm, "Replace") || nm == "Fields" || nm == "Map" || strings.HasPrefix(nm, "To")) {
+				return
+			}
+			// applied to a []byte / string that derives from a parameter (the payload)
+			onPayload := false
+			for _, a := range c.Call.Args {
+				if DependsOn(a, func(x ssa.Value) bool { _, isP := x.(*ssa.Parameter); return isP }) {
+					onPayload = true
+				}
+			}
+			if !onPayload {
+				return
+			}
+			n++
+			ord++
+			r.Fn(FnName(fn))
+			r.Viol(fmt.Sprintf("altered@%s~%d", FnName(fn), ord), fmt.Sprintf("%s applies %s.%s to the payload before decoding it: in this format leading/trailing whitespace is content (a final cell ending in a space, the last newline of a block scalar, an indented first line), so some encoder outputs no longer decode to the value that was encoded", FnName(fn), pp, nm), c.Pos())
+		})
+	}
+	if n == 0 {
+		r.OK("altered", "the CSV and YAML decoders pass their payload on unaltered", 0)
+	}
+}
+
+func init() { register("C13", Rule{"R13e", ruleSignificantPayloadUnaltered}) }
